@@ -414,7 +414,41 @@ func mentionsPhiOf(v ssa.Value, blk *ssa.BasicBlock, depth int) bool {
 // backward slice of the SSA def-use chain; nothing is evaluated.
 func (c *Ctx) Expr(v ssa.Value) string {
 	e := &exprCtx{c: c, seen: map[ssa.Value]bool{}}
+	// a phi asked about on its own (typically an argument picked out of a call by a rule) is read as the value it has
+	// at its uses, when all of them agree
+	if phi, ok := v.(*ssa.Phi); ok {
+		if r := refineAtUses(phi); r != nil {
+			v = r
+		}
+	}
 	return e.expr(v)
+}
+
+// refineAtUses: the one value the phi has in every block that uses it (nil when the uses disagree, when another phi
+// uses it, or when nothing narrows it).
+func refineAtUses(phi *ssa.Phi) ssa.Value {
+	refs := phi.Referrers()
+	if refs == nil {
+		return nil
+	}
+	var out ssa.Value
+	for _, r := range *refs {
+		switch r.(type) {
+		case *ssa.DebugRef:
+			continue
+		case *ssa.Phi:
+			return nil
+		}
+		v := refineAt(phi, r.Block())
+		if v == ssa.Value(phi) {
+			return nil
+		}
+		if out != nil && out != v {
+			return nil
+		}
+		out = v
+	}
+	return out
 }
 
 func constStr(k *ssa.Const) string {
